@@ -269,8 +269,16 @@ fn orchestrate<C: Check>(tier: Tier) -> i32 {
     known_lines.sort();
     known_lines.dedup();
 
+    // summary of an extra stage run by run.sh before us (coverage-guided fuzzing of the pure-core checks)
+    let extra: Option<serde_json::Value> = std::env::var("VERIF_EXTRA_COVERAGE_FILE")
+        .ok()
+        .and_then(|p| std::fs::read_to_string(p).ok())
+        .and_then(|s| serde_json::from_str(&s).ok());
+    let extra_execs = extra.as_ref().and_then(|e| e.get("executions")).and_then(|x| x.as_u64()).unwrap_or(0);
+    let extra_viol = extra.as_ref().and_then(|e| e.get("violations")).and_then(|x| x.as_i64()).unwrap_or(0);
     let coverage = serde_json::json!({
-        "evaluations": m.evaluations + replayed,
+        "evaluations": m.evaluations + replayed + extra_execs,
+        "coverage_guided_stage": extra,
         "distinct_nontrivial": m.nontrivial.len(),
         "rule": C::rule(),
         "samples": m.samples,
@@ -289,7 +297,7 @@ fn orchestrate<C: Check>(tier: Tier) -> i32 {
         coverage,
         assumptions: C::assumptions(),
         wall_s: t0.elapsed().as_secs_f64(),
-        violations: violations.len() as i64,
+        violations: violations.len() as i64 + extra_viol,
     });
     for l in &known_lines {
         println!("{l}");
